@@ -339,10 +339,22 @@ def insertSorted (p : Nat × Cb) : List (Nat × Cb) → List (Nat × Cb)
 
 def sortChans (l : List (Nat × Cb)) : List (Nat × Cb) := l.foldr insertSorted []
 
-def showClient (c : Client) : String :=
+def sumNat (l : List Nat) : Nat := l.foldl (· + ·) 0
+
+/-- Histories with hundreds of outstanding queries / associations: a digest (counts and sums of
+ids and deadlines) instead of the full tables, on both sides of the comparison. -/
+def showClientDigest (c : Client) : String :=
+  s!"chani={c.chani} big nch={c.chans.length} sch={sumNat (c.chans.map (·.1))} " ++
+  s!"ndns={c.dnsreqs.length} sdns={sumNat (c.dnsreqs.map (·.1))} ddns={sumNat (c.dnsreqs.map (·.2))} " ++
+  s!"nudp={c.udpBySrc.length} sudp={sumNat (c.udpBySrc.map (·.2.1))} dudp={sumNat (c.udpBySrc.map (·.2.2))}"
+
+def showClientFull (c : Client) : String :=
   s!"chani={c.chani} chans={joinOr "," ((sortChans c.chans).map fun p => s!"{p.1}:{showCb p.2}")} " ++
   s!"dns={joinOr "," (c.dnsreqs.map fun p => s!"{p.1}@{p.2}")} " ++
   s!"udp={joinOr "," (c.udpBySrc.map fun p => s!"{showAddr p.1}>{p.2.1}@{p.2.2}")}"
+
+def showClient (c : Client) : String :=
+  if c.chans.length > 48 then showClientDigest c else showClientFull c
 
 def showCStep (old new : CSys) : String :=
   match new.dead with
@@ -354,13 +366,22 @@ def showCStep (old new : CSys) : String :=
 
 def showB (b : Bool) : String := if b then "1" else "0"
 
-def showServer (s : SSys) : String :=
+def showServerDigest (s : SSys) : String :=
+  s!"big ndns={s.dnsH.length} sdns={sumNat (s.dnsH.map (·.chan))} tries={sumNat (s.dnsH.map (·.tries))} " ++
+  s!"okdns={(s.dnsH.filter (·.ok)).length} ndmap={s.dnshandlers.length} " ++
+  s!"nudp={s.udpH.length} sudp={sumNat (s.udpH.map (·.chan))} okudp={(s.udpH.filter (·.ok)).length} " ++
+  s!"numap={s.udphandlers.length} nch={s.chans.length} sch={sumNat s.chans}"
+
+def showServerFull (s : SSys) : String :=
   s!"dns={joinOr ";" (s.dnsH.map fun h =>
       s!"{h.hid}:{h.chan}:{h.tries}:{joinOr "," (h.socks.map toString)}:{showB h.ok}@{h.deadline}")} " ++
   s!"dmap={joinOr "," (s.dnshandlers.map fun p => s!"{p.1}>{p.2}")} " ++
   s!"udp={joinOr ";" (s.udpH.map fun h => s!"{h.hid}:{h.chan}:{h.sock}:{h.family}:{showB h.ok}")} " ++
   s!"umap={joinOr "," (s.udphandlers.map fun p => s!"{p.1}>{p.2}")} " ++
   s!"ch={joinOr "," (s.chans.map toString)}"
+
+def showServer (s : SSys) : String :=
+  if s.dnsH.length + s.udpH.length > 48 then showServerDigest s else showServerFull s
 
 def showErrno : Option Nat → String
   | none => "0"
